@@ -153,7 +153,7 @@ var requiredB = []string{
 	"b:tx-never-found", "b:tx-out-of-gas", "b:broadcast-out-of-gas", "b:broadcast-error", "b:sim-error", "b:account-error", "b:key-error",
 }
 
-func runA(r *engine.Run, quick bool, deadline time.Time) {
+func execA(r *engine.Run, quick bool, deadline time.Time) {
 	cfgs := configsA(quick)
 	if only := os.Getenv("VERIF_C20_ONLY"); only != "" {
 		var sel []*CfgA
@@ -253,7 +253,7 @@ func compress(p []string) []string {
 	return out
 }
 
-func runB(r *engine.Run, quick bool, deadline time.Time) {
+func execB(r *engine.Run, quick bool, deadline time.Time) {
 	scs, bounds := scenariosB(quick)
 	only := os.Getenv("VERIF_C20_ONLY")
 	for i, sc := range scs {
@@ -333,10 +333,10 @@ func init() {
 			dlA := r.Deadline(8*time.Minute, 40*time.Minute)
 			dlB := r.Deadline(14*time.Minute, 70*time.Minute)
 			if part != "b" {
-				runA(r, quick, dlA)
+				execA(r, quick, dlA)
 			}
 			if part != "a" {
-				runB(r, quick, dlB)
+				execB(r, quick, dlB)
 			}
 			r.Rule = "part a: a case is one daemon poll or one block step executed on the real code from a distinct state (feeds+oracle store content, in-flight submissions); distinct_nontrivial counts distinct states; part b: a case is one complete controlled execution, distinct outcomes are added"
 			keys := make([]string, 0, len(r.Outcomes))
